@@ -647,6 +647,15 @@ func (p *Pkg) checkSplitWrites() (bool, string) {
 func (w *World) rulesBuf(p *Pkg, add func(ok bool, rule, inst string, pos token.Pos, detail string)) {
 	info := p.Info
 	em := p.EmitModel()
+	if em.Semantic && em.MakeCall != nil && em.Fn != nil {
+		// The symbolic interpretation of Vector (semit.go) followed the bytes it
+		// returns back to a make([]byte, …) evaluated in this call, through every
+		// helper (by value, by pointer, returned slices). It succeeds only when
+		// no statement on the way stores to package-level state, defers a call,
+		// or hands a symbolic value to a function outside the package.
+		add(true, "R14.buf", "Vector.buffer", em.Fn.Pos(), "the bytes Vector returns are those of a buffer made by make in the same call (provenance followed through all helpers by the symbolic interpreter); the interpreted statements neither store it in package-level state nor pass it outside the package")
+		return
+	}
 	if em.Fn != nil && em.BufObj != nil && em.MakeCall == nil {
 		add(false, "R14.buf", "Vector.buffer", em.Fn.Pos(), "Vector's buffer is not made in the call (shared scratch space: a returned string changes when Vector is called again, concurrent calls race)")
 		return
